@@ -119,7 +119,7 @@ package immutable
 //@   ghostparam h fp.Hashable[K]
 //@   option summary
 //@   option assumerec=mergeIntoNode
-//@   option timeout=60
+//@   option timeout=240
 //@   requires node != nil && node.keyHashValue() != keyHash && shift <= 30 && shift%5 == 0
 //@   requires (node.keyHashValue() >> shift) != (keyHash >> shift)
 //@   requires veriflaws.HashLaws(h) && leafWF(node, h) && keyHash == h.Hash(key) && (forall s uint :: Rec_nodeWF(mapNode[K, V](node), s, h))
@@ -134,7 +134,7 @@ package immutable
 //@   tag persistent
 //@   ghost before "return other" :: { h := verifspec.Ghost[fp.Hashable[K]]("h"); verifspec.Reveal(Rec_childOK(mapNode[K, V](node), idx1, shift, h)); verifspec.Reveal(Rec_childOK(other.nodes[0], idx1, shift, h)) }
 //
-//@ include internal/verifspec/hamtnode.contracts HEAD=func·(*mapValueNode). OPTS=option·assume=mergeIntoNode,get,indexOf DOPTS=option·note=none
+//@ include internal/verifspec/hamtnode.contracts HEAD=func·(*mapValueNode). OPTS=option·assume=mergeIntoNode,get,indexOf·timeout=60 DOPTS=option·note=none
 //
 // ---- array node (root only): entries searched linearly, first match wins
 //@ func (*mapArrayNode).indexOf(n, key, h) result
@@ -146,7 +146,7 @@ package immutable
 //@   loop 0 invariant 0 <= i && i < len(n.entries) && (forall j int :: 0 <= j && j < i ==> !h.Eqv(n.entries[j].key, key))
 //@   loop 0 decreases len(n.entries) - i
 //
-//@ include internal/verifspec/hamtnode.contracts HEAD=func·(*mapArrayNode). OPTS=option·assume=indexOf,mergeIntoNode DOPTS=option·note=none
+//@ include internal/verifspec/hamtnode.contracts HEAD=func·(*mapArrayNode). OPTS=option·assume=indexOf,mergeIntoNode·timeout=120 DOPTS=option·note=none
 //
 //@ func (*mapArrayNode).set(n, key, value, shift, keyHash, h, mutable, resized) result
 //@   loop 0 invariant 0 <= idx_ && idx_ < len(n.entries) && node != nil && *resized && Rec_nodeWF(node, 0, h)
@@ -184,10 +184,10 @@ package immutable
 //@   loop 0 invariant 0 <= i && i < len(n.entries) && (forall j int :: 0 <= j && j < i ==> !h.Eqv(n.entries[j].key, key))
 //@   loop 0 decreases len(n.entries) - i
 //
-//@ include internal/verifspec/hamtnode.contracts HEAD=func·(*mapHashCollisionNode). OPTS=option·assume=indexOf,get,mergeIntoNode DOPTS=option·note=none
+//@ include internal/verifspec/hamtnode.contracts HEAD=func·(*mapHashCollisionNode). OPTS=option·assume=indexOf,get,mergeIntoNode·timeout=120 DOPTS=option·note=none
 //
 // ---- hash array node (branch): 32 slots indexed by the hash fragment
-//@ include internal/verifspec/hamtnode.contracts HEAD=func·(*mapHashArrayNode). OPTS=option·timeout=120·steps=6000000 DOPTS=option·tier=thorough
+//@ include internal/verifspec/hamtnode.contracts HEAD=func·(*mapHashArrayNode). OPTS=option·timeout=240·steps=6000000 DOPTS=option·tier=thorough
 //@ func (*mapHashArrayNode).set(n, key, value, shift, keyHash, h, mutable, resized) result
 //@   ghost before "newNode = node.set(" :: verifspec.Reveal(Rec_childOK(node, idx, shift, h))
 //@   ghost before "return other" :: verifspec.Reveal(Rec_childOK(newNode, idx, shift, h))
